@@ -6,6 +6,7 @@ from concurrent.futures import ThreadPoolExecutor, as_completed
 
 VERIF = os.path.dirname(os.path.dirname(os.path.abspath(__file__)))
 REPO = os.environ.get('VERIF_REPO', '/repo')
+OUT = os.environ.get('VERIF_OUT', VERIF)   # where evidence/ and replays/ are written (overridden when checks are run against a patched copy)
 GUARD = 'QLIBC_VERIF'
 
 INCLUDES = ['-I%s/src/internal' % REPO, '-I%s/include/qlibc' % REPO,
@@ -460,12 +461,12 @@ def run_property(prop, tier, cases, jobs=None, meta=None, only=None, keep=False)
     jobs = jobs or int(os.environ.get('VERIF_JOBS', '0') or 0) or min(16, os.cpu_count() or 4)
     if only:
         cases = [c for c in cases if re.search(only, c.cid)]
-    work = os.path.join(VERIF, '.work', '%s-%s-%d' % (prop, tier, os.getpid()))
+    work = os.path.join(OUT, '.work', '%s-%s-%d' % (prop, tier, os.getpid()))
     shutil.rmtree(work, ignore_errors=True)
     os.makedirs(work)
     known = load_known()
     if not only:
-        shutil.rmtree(os.path.join(VERIF, 'replays', prop), ignore_errors=True)
+        shutil.rmtree(os.path.join(OUT, 'replays', prop), ignore_errors=True)
     results = []
     # heavier cases first for better packing
     order = sorted(cases, key=lambda c: -c.timeout)
@@ -509,7 +510,7 @@ def run_property(prop, tier, cases, jobs=None, meta=None, only=None, keep=False)
                     continue
                 violations.append((r, f))
         # --- replay violations: one replay file (and one VIOLATION line) per case
-        rep_dir = os.path.join(VERIF, 'replays', prop)
+        rep_dir = os.path.join(OUT, 'replays', prop)
         vio_lines = []
         mismatch = []
         by_case = {}
@@ -538,11 +539,11 @@ def run_property(prop, tier, cases, jobs=None, meta=None, only=None, keep=False)
                    'all_failed_tags': sorted(set(f['tag'] for f in fs)),
                    'inputs': used.get('inputs'), 'cbmc_cmd': r.get('cbmc_cmd'), 'build_cmd': r.get('build_cmd'), 'native_replay': nat,
                    'confirmed_natively': confirmed,
-                   'repo_head': git_head(REPO), 'how_to_replay': './vcheck %s --replay %s' % (prop, os.path.relpath(path, VERIF))}
+                   'repo_head': git_head(REPO), 'how_to_replay': './vcheck %s --replay %s' % (prop, os.path.relpath(path, OUT))}
             with open(path, 'w') as fh:
                 json.dump(rec, fh, indent=1)
             if confirmed or ub_only:
-                vio_lines.append('VIOLATION property=%s replay=%s' % (prop, os.path.relpath(path, VERIF)))
+                vio_lines.append('VIOLATION property=%s replay=%s' % (prop, os.path.relpath(path, OUT)))
                 sys.stderr.write('  case=%s tags=%s native=%s\n' % (c.cid, ','.join(rec['all_failed_tags'])[:300], nat['outcome'] if nat else 'n/a'))
             elif all(f['kind'] == 'unwind' for f in fs):
                 r['detail'] = 'unwinding assertion failed and the native replay terminated normally (loop bound too small for this code): %s' % fs[0]['pid']
@@ -589,8 +590,8 @@ def run_property(prop, tier, cases, jobs=None, meta=None, only=None, keep=False)
             'wall_s': round(time.time() - t0, 1),
             'violations': len(vio_lines),
         }
-        os.makedirs(os.path.join(VERIF, 'evidence'), exist_ok=True)
-        with open(os.path.join(VERIF, 'evidence', prop + '.json'), 'w') as fh:
+        os.makedirs(os.path.join(OUT, 'evidence'), exist_ok=True)
+        with open(os.path.join(OUT, 'evidence', prop + '.json'), 'w') as fh:
             json.dump(ev, fh, indent=1)
         # --- report
         for k in sorted(set((k['property'], k['tag'], k['text']) for (k, r, f) in known_hits)):
